@@ -28,6 +28,12 @@ def jobs(tier):
             js.append({'name': '%s 2 lines first=%s, one I/O fault' % (mode, f), 'harness': (H, 'h_paths'),
                        'params': {'nlines': 2, 'menu_name': 'small', 'mode': mode, 'fixed': [f, 'cont prefix'] if f != 'include f' else [f],
                                   'faults': 1, 'pre_out_len': 2 if mode in ('Verify', 'Clean') else None}, 'split': 4})
+    # erroneous directives (prefix-less multi-line directives of the `indent` menu) next to a hand-written file at the path they name
+    for mode in ('Clean', 'Build', 'Verify'):
+        for f in ('temp', 'write', 'run'):
+            js.append({'name': '%s prefix-less %s, hand-written t.tmp' % (mode, f), 'harness': (H, 'h_paths'),
+                       'params': {'nlines': 2, 'menu_name': 'indent', 'mode': mode, 'fixed': [f], 'pre_temp_len': 2,
+                                  'pre_out_len': 2 if mode in ('Verify', 'Clean') else None}, 'split': 4})
     # whole tree: real coordinator + real preprocess, look-alike decoys (.txtpp, .txtpp.cfg, txtpp, x.txtpp.b.c), escaped directive text
     for mode, second in (('Build', None), ('InMemoryBuild', None), ('Build', 'Clean'), ('Build', 'Verify'), ('Clean', None)):
         for inputs in (['.'], ['a.txt', 'b', 'sub']):
